@@ -1,13 +1,20 @@
 #!/bin/bash
 # developer aid (never used by a check): an isolated copy of /repo and /verif for experiments that
 # change ironplc (seeded changes, reverted fixes) without touching /repo or the /verif build.
-#   usage: mkbox.sh <dir>     creates <dir>/repo (detached worktree of /repo HEAD) and <dir>/verif
+#   usage: mkbox.sh <dir> [verif-commit]   creates <dir>/repo (detached worktree of /repo HEAD) and
+#          <dir>/verif (copy of the working tree, or of the given /verif commit: a frozen harness)
 # Remove with:  git -C /repo worktree remove --force <dir>/repo; rm -rf <dir>
 set -e
 B=$1
 mkdir -p "$B"
 [ -d "$B/repo" ] || git -C /repo worktree add --detach "$B/repo" HEAD >/dev/null   # re-run to refresh <dir>/verif only
-rsync -a --exclude .build --exclude .git --exclude replays /verif/ "$B/verif/"
+if [ -n "$2" ]; then
+  rm -rf "$B/src"; mkdir -p "$B/src" "$B/verif"
+  git -C /verif archive "$2" | tar -x -C "$B/src"
+  rsync -a --delete --exclude .build --exclude replays "$B/src/" "$B/verif/"; rm -rf "$B/src"
+else
+  rsync -a --exclude .build --exclude .git --exclude replays /verif/ "$B/verif/"
+fi
 mkdir -p "$B/verif/replays"
 grep -rl '/repo' "$B/verif/harness/Cargo.toml" "$B/verif/fuzz/Cargo.toml" "$B/verif/build.sh" "$B/verif/harness/src" "$B/verif/fuzz/fuzz_targets" | xargs sed -i "s#/repo/#$B/repo/#g; s#\"/repo\"#\"$B/repo\"#g"
 sed -i "s#/verif#$B/verif#g; s#git -C /repo#git -C $B/repo#g" "$B/verif/seedtest.py"
